@@ -151,7 +151,7 @@ func cmdCheck(args []string) int {
 	var fcs []*FuncContract
 	pkgs := map[string]bool{}
 	for _, fc := range cs.Funcs {
-		if fc.Tags[prop] && !fc.External {
+		if fc.Tags[prop] && !fc.External && !fc.Flags["trusted"] {
 			fcs = append(fcs, fc)
 			pkgs[fc.Pkg] = true
 		}
